@@ -25,6 +25,15 @@ Line-protocol driver for the C06 model (fan-out queue with consumer groups).
   race2 <g> <g2> <n>     (two stores parked at once: Ack n on g ‖ Consume g ‖ GetOrCreate g2 ‖ Sync;GC
       = ack; consume; create; sync; gc — answers the Consume result)
   setappsync <n>         (Sync called in the middle of SetAppendedSeq n = setapp n)
+  ackfault <g> <n>       (Ack n on g whose msync fails, Model/C06Msync.lean `State.ackFault`: in the pinned
+      shape = ack g n)
+  acksync <g> <n> <f>    (Sync; GC while Ack n on g sits in its msync, which then returns — f=1: with an
+      error —, `State.ackSync`: in the pinned shape = ack g n; sync; gc)
+  syncack <g> <n>        (Sync parked in the msync of queue.SetAcknowledgedSeq, holding the queue's lock,
+      while g acknowledges n and a second Sync is started = sync; ack g n; sync)
+  syncreset <n>          (the same while FanOutQueue.SetAppendedSeq n is started = sync; setapp n)
+      The msync shape interpreted (`Msync.shapeOf`) is computed from the regenerated access tables of Ack
+      and queue.SetAcknowledgedSeq.
 
 State operations answer `<result> | q=<appended>/<ack> | <g>=<consumed>/<ack> ...` (live groups,
 ascending by name); `get` answers `ok <len>` / `out-of-range` / `not-found`; `pages` answers
@@ -37,6 +46,7 @@ import LinVerif.Util.Proto
 import LinVerif.Model.FanOutPark
 import LinVerif.Model.FanOutFault
 import LinVerif.Model.FanOutRepl
+import LinVerif.Model.C06Msync
 import LinVerif.Generated.C06
 
 namespace LinVerif.Driver.C06
@@ -132,6 +142,9 @@ def showPRes : PRes → String
 
 def preply (p : PState × PRes) : PState × String := (p.1, showPRes p.2 ++ " | " ++ showState p.1.s)
 
+/-- the msync shape of the current source (regenerated access tables) -/
+def msyncShape : Msync.Shape := Msync.shapeOf Generated.C06.ackAccess Generated.C06.queueSetAckAccess
+
 def pstepLine (v : Variant) (ps : PState) (ws : List String) : PState × String :=
   match ws with
   | ["cbegin", g] =>
@@ -211,6 +224,35 @@ def pstepLine (v : Variant) (ps : PState) (ws : List String) : PState × String 
     match n.toInt? with
     | some n => if n < -1 then (ps, "bad-op") else
       let r := step v ps.s (.setAppended n)
+      ({ ps with s := r.1 }, showRes r.2 ++ " | " ++ showState r.1)
+    | none => (ps, "bad-op")
+  | ["ackfault", g, n] =>
+    match g.toNat?, n.toInt? with
+    | some g, some n =>
+      let s' := Msync.State.ackFault msyncShape v ps.s g n
+      ({ ps with s := s' }, "ok | " ++ showState s')
+    | _, _ => (ps, "bad-op")
+  | ["acksync", g, n, f] =>
+    match g.toNat?, n.toInt?, f.toNat? with
+    | some g, some n, some f =>
+      if f > 1 then (ps, "bad-op") else
+      let s' := Msync.State.ackSync msyncShape v ps.s g n (f == 1)
+      ({ ps with s := s' }, "ok | " ++ showState s')
+    | _, _, _ => (ps, "bad-op")
+  | ["syncack", g, n] =>
+    -- the parked Sync holds the queue's write lock: the second Sync is ordered after it
+    match g.toNat?, n.toInt? with
+    | some g, some n =>
+      let s1 := (step v ps.s .sync).1
+      let s2 := (step v s1 (.ack g n)).1
+      let s3 := (step v s2 .sync).1
+      ({ ps with s := s3 }, "ok | " ++ showState s3)
+    | _, _ => (ps, "bad-op")
+  | ["syncreset", n] =>
+    match n.toInt? with
+    | some n => if n < -1 then (ps, "bad-op") else
+      let s1 := (step v ps.s .sync).1
+      let r := step v s1 (.setAppended n)
       ({ ps with s := r.1 }, showRes r.2 ++ " | " ++ showState r.1)
     | none => (ps, "bad-op")
   | ["reset"] => (PState.init, "ok")
